@@ -491,3 +491,66 @@ def replay_cases(run, drv, cases, stream="map(replay)"):
             p.join()
         shutil.rmtree(scratch_root, ignore_errors=True)
     return len(cases)
+
+
+def run_seeding(run):
+    """`map` / `map_iter` that make their own pool (`pool=None`): every worker is initialised by `_proc_init` with the seed
+    `base + worker_id`, `worker_id` one of 0 … num_workers-1 handed out once each, `base` drawn from the `generator` argument, and with
+    `worker_threads` intra-op threads. Seen from the results: every chunk reports a seed in {base + i}, the numpy state that goes with that seed
+    (two chunks with the same torch seed report the same numpy word, different seeds different words), the requested thread count; the same
+    generator state gives the same base (so a second run reports seeds from the same set), another state another base."""
+    from tensordict import TensorDict
+    from c12_fns import seed_fn
+    rng = run.rng
+    quick = run.tier == "quick"
+    for it in range(3 if quick else 12):
+        w = rng.choice([2, 3])
+        n = rng.choice([6, 8])
+        wt = rng.choice([1, 2])
+        gseed = rng.randint(0, 10**6)
+        api = ["map", "map_iter"][it % 2]
+        case = {"api": api, "num_workers": w, "rows": n, "worker_threads": wt, "generator_seed": gseed}
+        run.case(("seeding", it, api, w, n, wt))
+        td = TensorDict({"x": torch.arange(float(n))}, [n])
+
+        def once(seed_):
+            g = torch.Generator()
+            g.manual_seed(seed_)
+            g2 = torch.Generator()
+            g2.set_state(g.get_state())
+            base = torch.empty((), dtype=torch.int64).random_(generator=g2).item()
+            with time_limit(150):
+                if api == "map":
+                    r = td.map(seed_fn, dim=0, num_workers=w, chunksize=1, generator=g, worker_threads=wt, mp_start_method="fork")
+                else:
+                    r = torch.cat(list(td.map_iter(seed_fn, dim=0, num_workers=w, chunksize=1, generator=g, worker_threads=wt, mp_start_method="fork")), 0)
+            by_pid = set(zip(r["pid"].tolist(), r["seed"].tolist()))
+            if len({p_ for p_, _ in by_pid}) != len(by_pid) or len({s_ for _, s_ in by_pid}) != len(by_pid):
+                raise AssertionError(f"worker processes and seeds do not go one-to-one: (pid, seed) = {sorted(by_pid)}")
+            return base, r["seed"].tolist(), r["np"].tolist(), r["threads"].tolist()
+
+        problems = []
+        try:
+            base, seeds, nps, threads = once(gseed)
+            allowed = {base + i for i in range(w)}
+            if not set(seeds) <= allowed:
+                problems.append(f"chunks report torch seeds {sorted(set(seeds))}, expected a subset of base + 0..{w - 1} = {sorted(allowed)}")
+            pairs = set(zip(seeds, nps))
+            if len({s for s, _ in pairs}) != len(pairs) or len({p for _, p in pairs}) != len(pairs):
+                problems.append(f"numpy states do not go one-to-one with the torch seeds: {sorted(pairs)}")
+            if set(threads) != {wt}:
+                problems.append(f"workers ran with {sorted(set(threads))} intra-op threads, asked for {wt}")
+            base2, seeds2, nps2, _ = once(gseed)
+            if base2 != base or not set(seeds2) <= allowed or not set(zip(seeds2, nps2)) <= pairs | {(s, p) for s, p in zip(seeds2, nps2) if s not in {a for a, _ in pairs}}:
+                problems.append(f"a second run from the same generator state reports seeds {sorted(set(seeds2))}, first run allowed {sorted(allowed)}")
+            base3, seeds3, _, _ = once(gseed + 1)
+            if set(seeds3) & allowed and base3 == base:
+                problems.append("another generator state gives the same seeds")
+        except TimeoutError as e:
+            raise Infra(f"seeded map timed out: {e}")
+        except Exception as e:  # noqa: BLE001
+            problems.append(f"raised {type(e).__name__}: {str(e)[:150]}")
+        if not problems:
+            run.oracle_ok("worker_seeding")
+        else:
+            run.oracle_fail("worker_seeding", case, f"{api}(generator=…, num_workers={w}, worker_threads={wt}): " + "; ".join(problems[:3]), "seeding")
